@@ -16,8 +16,9 @@ import (
 )
 
 type specBinding struct {
-	val Val
-	typ types.Type
+	val  Val
+	typ  types.Type
+	cell *Term // a captured variable of a closure: read from its cell in the state being evaluated
 }
 
 type untyped struct {
@@ -219,7 +220,7 @@ func (ex *Exec) evalSpec(e *SExpr, env *SpecEnv) (Val, types.Type) {
 			}
 			b := Bound(v.Name, ls[0].sort)
 			bvs = append(bvs, b)
-			n.vars[v.Name] = specBinding{b, t}
+			n.vars[v.Name] = specBinding{val: b, typ: t}
 		}
 		body := ex.evalBool(e.Args[0], n)
 		// bounded expansion: forall k :: lo <= k && k < hi ==> P with literal bounds
@@ -322,6 +323,9 @@ func expandBounded(q string, k *Term, body *Term) (*Term, bool) {
 
 func (ex *Exec) evalIdent(name string, env *SpecEnv) (Val, types.Type) {
 	if b, ok := env.vars[name]; ok {
+		if b.cell != nil {
+			return ex.loadPtr(env.cur, b.typ, b.cell), b.typ
+		}
 		return b.val, b.typ
 	}
 	switch name {
@@ -861,6 +865,12 @@ func (ex *Exec) evalCall(e *SExpr, env *SpecEnv) (Val, types.Type) {
 				specFail("istype(x, T)")
 			}
 			t := ex.resolveType(typeExprString(args[1]), env.pkg)
+			if types.IsInterface(t) {
+				// istype(x, I) for an interface type I: the dynamic type of x implements I (what the
+				// type assertion x.(I) tests)
+				iv := ex.asIface(a)
+				return And(Neq(iv.Tag, IntLit(0)), ex.implementsTerm(iv.Tag, t)), boolT
+			}
 			return Eq(ex.asIface(a).Tag, typeTag(t)), boolT
 		case "any":
 			a, t := ex.evalSpec(args[0], env)
@@ -874,6 +884,14 @@ func (ex *Exec) evalCall(e *SExpr, env *SpecEnv) (Val, types.Type) {
 		case "isnil":
 			a, t := ex.evalSpec(args[0], env)
 			return ex.valEq(t, a, zeroVal(t)), boolT
+		case "isobj":
+			// isobj(x): x refers to an object (for an interface value: it is not nil and what it
+			// holds is not a nil pointer either)
+			a, _ := ex.evalSpec(args[0], env)
+			if iv, ok := a.(*IfaceV); ok {
+				return And(Neq(iv.Tag, IntLit(0)), Neq(iv.Data, Null)), boolT
+			}
+			return Neq(refOf(a), Null), boolT
 		case "fresh":
 			// fresh(x): allocated during the call (not in the old state)
 			a, _ := ex.evalSpec(args[0], env)
@@ -916,7 +934,7 @@ func (ex *Exec) evalCall(e *SExpr, env *SpecEnv) (Val, types.Type) {
 				if t == nil {
 					v = ex.coerce(v, pt)
 				}
-				n.vars[p.Name] = specBinding{v, pt}
+				n.vars[p.Name] = specBinding{val: v, typ: pt}
 			}
 			var v Val
 			var t types.Type
@@ -928,7 +946,7 @@ func (ex *Exec) evalCall(e *SExpr, env *SpecEnv) (Val, types.Type) {
 				var fargs []*Term
 				for _, p := range d.Params {
 					b := n.vars[p.Name]
-					ph.vars[p.Name] = specBinding{varVal("opqarg$"+d.Name+"$"+p.Name, b.typ), b.typ}
+					ph.vars[p.Name] = specBinding{val: varVal("opqarg$"+d.Name+"$"+p.Name, b.typ), typ: b.typ}
 					fargs = append(fargs, flat(b.val)...)
 				}
 				pv, pt := ex.evalSpec(d.Body, ph)
